@@ -3,6 +3,7 @@ CHECK_DEADLOCK FALSE
 INVARIANTS
   CheckIffCurrent
   EmitStrip
+  EmitItem
   EmitFiles
 PROPERTIES
   CheckIsReadOnly
